@@ -170,6 +170,20 @@ def replay_selftest(ctx, binary, bs, opts, pick, corrupt):
     ctx.notes.append('replay self-test: no suitable behaviour')
 
 
+def refuted_run(ctx, cfg):
+    """TLC run of the model of the procedure AS ORIGINALLY WRITTEN: the invariant must be refuted. The
+    log line is reworded so that an expected refutation never looks like a verdict."""
+    orig = vlib.log
+    vlib.log = lambda *a: orig(*[str(x).replace(' VIOLATION ', ' refuted, as expected for the original procedure: ') for x in a])
+    try:
+        r = ctx.tlc_mc('Wallet_MC', cfg, workers=1, timeout=3600, expect_violation=True, count=False)
+    finally:
+        vlib.log = orig
+    ctx.mc_runs[-1]['note'] = ('model of ProcWalletSetPasswd as originally written (TempUnlock=TRUE); refutation expected: '
+                               'anti-vacuity of the invariant and source of the candidate schedules')
+    return r
+
+
 def run_c38(ctx):
     q = ctx.tier == 'quick'
     ctx.rule = ('behaviours = schedules simulated by TLC from Wallet.tla in GenMode (requests of 3 callers, the password change '
@@ -185,7 +199,7 @@ def run_c38(ctx):
     # 2. the model of the procedure as originally written is refuted; its counterexamples are candidates
     cands = []
     for cfg, inv in (('Wallet_Defect.cfg', 'LockInv'), ('Wallet_DefectQ.cfg', 'QuiescentInv')):
-        r = ctx.tlc_mc('Wallet_MC', cfg, workers=1, timeout=3600, expect_violation=True, count=False)
+        r = refuted_run(ctx, cfg)
         if r['violation'] != inv:
             raise vlib.Broken('defect model %s: expected %s to be refuted (anti-vacuity of the invariant), got %s' % (cfg, inv, r['violation']))
         cands.append((inv, candidate_from_counterexample(r['out'], cfg.replace('.cfg', ''))))
